@@ -20,10 +20,40 @@ import (
 
 var (
 	engines = []string{"compiler", "interpreter"}
-	causes  = []string{"cancel", "deadline", "close", "close7"}
+	// baseCauses run for every shape. ctxCauses are the remaining ways the standard library lets the
+	// context passed to the call become done (or, for WithoutCancel, NOT become done); they run for a
+	// representative subset of shapes in quick and for every named shape in thorough.
+	baseCauses = []string{"cancel", "deadline", "close", "close7"}
+	ctxCauses  = []string{
+		"cancel-cause-custom",         // WithCancelCause, cancel(custom error)
+		"cancel-cause-wraps-deadline", // WithCancelCause, cancel(error wrapping context.DeadlineExceeded): Err() is still Canceled
+		"cancel-cause-wraps-canceled", // WithCancelCause, cancel(error wrapping context.Canceled)
+		"timeout-cause",               // WithTimeoutCause(1s, error wrapping context.Canceled): Err() is DeadlineExceeded
+		"deadline-cause",              // WithDeadlineCause(now+1s, custom error)
+		"parent-withvalue",            // the parent of WithValue(parent) is cancelled
+		"parent-withcancel",           // the parent of WithCancel(parent) is cancelled
+		causeWithoutCancel,            // the parent of WithoutCancel(parent) is cancelled: must NOT stop the call
+		"custom-ctx-canceled",         // own context.Context implementation: Done closes, Err() == context.Canceled
+		"custom-ctx-deadline",         // own implementation, Err() == context.DeadlineExceeded
+		"afterfunc",                   // WithCancel context with a context.AfterFunc registered
+	}
+	causes = append(append([]string{}, baseCauses...), ctxCauses...)
 	// moments: -1 = the cause is fired before the call; k>=0 = at tick k, i.e. after k completed iterations.
 	moments = []int{-1, 1, 3}
 )
+
+// causeWithoutCancel: the context passed to the call is context.WithoutCancel(parent). Cancelling the
+// parent must not close the module; 20 ms later the harness checks that it did not and ends the case
+// with CloseWithExitCode(7) from another goroutine, so the expected exit code is 7. "Before the call"
+// means the parent is cancelled before the call and the check + close happen at tick 1.
+const causeWithoutCancel = "parent-withoutcancel"
+
+func isCtxCause(c string) bool { return c != "close" && c != "close7" }
+
+// timer driven causes: nothing is fired, the chosen tick waits until the deadline has passed.
+func isTimerCause(c string) bool {
+	return c == "deadline" || c == "timeout-cause" || c == "deadline-cause"
+}
 
 // deadlineAhead is how far in the future the deadline of a "deadline" case lies when the call
 // starts. Ticks 0..3 happen microseconds after the call starts; the chosen tick then simply
@@ -54,34 +84,136 @@ func (c caseSpec) String() string {
 	return s
 }
 
+// expectedCode: the exit code follows ctx.Err() - whatever the cause recorded in the context is.
 func expectedCode(cause string) uint32 {
 	switch cause {
-	case "cancel":
+	case "cancel", "cancel-cause-custom", "cancel-cause-wraps-deadline", "cancel-cause-wraps-canceled",
+		"parent-withvalue", "parent-withcancel", "custom-ctx-canceled", "afterfunc":
 		return sys.ExitCodeContextCanceled
-	case "deadline":
+	case "deadline", "timeout-cause", "deadline-cause", "custom-ctx-deadline":
 		return sys.ExitCodeDeadlineExceeded
 	case "close":
 		return 0
-	case "close7":
+	case "close7", causeWithoutCancel:
 		return 7
 	}
-	panic("cause")
+	panic("cause " + cause)
+}
+
+var errCustomCause = errors.New("c07: budget used up")
+
+type ctxKey struct{}
+
+// manualCtx is a context.Context that is not built from the context package's own types.
+type manualCtx struct {
+	mu   sync.Mutex
+	done chan struct{}
+	err  error
+}
+
+func (m *manualCtx) Deadline() (time.Time, bool) { return time.Time{}, false }
+func (m *manualCtx) Done() <-chan struct{}       { return m.done }
+func (m *manualCtx) Value(any) any               { return nil }
+func (m *manualCtx) Err() error {
+	m.mu.Lock()
+	defer m.mu.Unlock()
+	return m.err
+}
+
+func (m *manualCtx) finish(err error) {
+	m.mu.Lock()
+	defer m.mu.Unlock()
+	if m.err == nil {
+		m.err = err
+		close(m.done)
+	}
+}
+
+// mkCtx builds the context of the call under test. r.fireCtx makes it done (no-op for timer driven
+// causes); r.cancel releases it afterwards. before: the context must already be done when it is returned
+// to the caller's fire (timers get a deadline in the past).
+func (r *caseRun) mkCtx(before bool) context.Context {
+	bg := context.Background()
+	r.fireCtx, r.cancel = func() {}, func() {}
+	at := time.Now().Add(deadlineAhead)
+	d := deadlineAhead
+	if before {
+		at, d = time.Now().Add(-time.Second), -time.Second
+	}
+	switch r.spec.Cause {
+	case "cancel":
+		ctx, c := context.WithCancel(bg)
+		r.fireCtx, r.cancel = c, c
+		return ctx
+	case "cancel-cause-custom", "cancel-cause-wraps-deadline", "cancel-cause-wraps-canceled":
+		cause := errCustomCause
+		switch r.spec.Cause {
+		case "cancel-cause-wraps-deadline":
+			cause = fmt.Errorf("giving up: %w", context.DeadlineExceeded)
+		case "cancel-cause-wraps-canceled":
+			cause = fmt.Errorf("user pressed stop: %w", context.Canceled)
+		}
+		ctx, c := context.WithCancelCause(bg)
+		r.fireCtx, r.cancel = func() { c(cause) }, func() { c(nil) }
+		return ctx
+	case "deadline":
+		ctx, c := context.WithDeadline(bg, at)
+		r.cancel = c
+		return ctx
+	case "timeout-cause":
+		ctx, c := context.WithTimeoutCause(bg, d, fmt.Errorf("too slow: %w", context.Canceled))
+		r.cancel = c
+		return ctx
+	case "deadline-cause":
+		ctx, c := context.WithDeadlineCause(bg, at, errCustomCause)
+		r.cancel = c
+		return ctx
+	case "parent-withvalue":
+		p, c := context.WithCancel(bg)
+		r.fireCtx, r.cancel = c, c
+		return context.WithValue(p, ctxKey{}, 1)
+	case "parent-withcancel":
+		p, c := context.WithCancel(bg)
+		ctx, c2 := context.WithCancel(p)
+		r.fireCtx, r.cancel = c, func() { c2(); c() }
+		return ctx
+	case causeWithoutCancel:
+		p, c := context.WithCancel(context.WithValue(bg, ctxKey{}, 1))
+		r.fireCtx, r.cancel = c, c
+		return context.WithoutCancel(p)
+	case "custom-ctx-canceled", "custom-ctx-deadline":
+		m := &manualCtx{done: make(chan struct{})}
+		e := context.Canceled
+		if r.spec.Cause == "custom-ctx-deadline" {
+			e = context.DeadlineExceeded
+		}
+		r.fireCtx = func() { m.finish(e) }
+		return m
+	case "afterfunc":
+		ctx, c := context.WithCancel(bg)
+		stop := context.AfterFunc(ctx, func() {})
+		r.fireCtx, r.cancel = c, func() { stop(); c() }
+		return ctx
+	}
+	return bg // close / close7
 }
 
 var errNeverClosed = errors.New("c07: module not closed after the cause was fired")
 
 type caseRun struct {
-	spec   caseSpec
-	sh     *shape
-	idx    int
-	t0     time.Time
-	mu     sync.Mutex
-	target api.Module
-	cancel context.CancelFunc
-	fired  bool
-	ticks  []uint32
-	armed  time.Duration
-	wd     *time.Timer
+	spec    caseSpec
+	sh      *shape
+	idx     int
+	t0      time.Time
+	mu      sync.Mutex
+	target  api.Module
+	cancel  context.CancelFunc
+	fireCtx func()
+	leaked  bool // the module closed although only the parent of a WithoutCancel context was cancelled
+	fired   bool
+	ticks   []uint32
+	armed   time.Duration
+	wd      *time.Timer
 }
 
 func marker(format string, a ...any) { fmt.Fprintf(os.Stderr, "C07 "+format+"\n", a...) }
@@ -137,20 +269,39 @@ func (r *caseRun) disarm() {
 	}
 }
 
-func (r *caseRun) fire(ctx context.Context) {
+// fire puts the cause in place. inGuest: called from the chosen tick (the guest is inside its cycle).
+func (r *caseRun) fire(inGuest bool) {
 	switch r.spec.Cause {
-	case "cancel":
-		r.cancel()
-	case "deadline":
-		// nothing to do: the deadline passes by itself
 	case "close":
 		t := r.target
 		go t.Close(context.Background())
 	case "close7":
 		t := r.target
 		go t.CloseWithExitCode(context.Background(), 7)
+	case causeWithoutCancel:
+		r.fireCtx() // cancels the parent (idempotent)
+		if inGuest {
+			time.Sleep(20 * time.Millisecond)
+			if r.target.IsClosed() {
+				r.leaked = true
+			}
+			t := r.target
+			go t.CloseWithExitCode(context.Background(), 7)
+		}
+	default:
+		r.fireCtx() // timer driven causes: nothing to do, the deadline passes by itself
 	}
 }
+
+// tickAt is the tick at which the harness acts; beforeCall reports whether the call is expected to
+// return promptly right from its start.
+func (r *caseRun) tickAt() int {
+	if r.spec.Moment < 0 && r.spec.Cause == causeWithoutCancel {
+		return 1
+	}
+	return r.spec.Moment
+}
+func (r *caseRun) beforeCall() bool { return r.spec.Moment < 0 && r.spec.Cause != causeWithoutCancel }
 
 // tick is env.tick: at the chosen iteration it fires the cause, waits until the module is observed
 // closed, and returns into the guest.
@@ -160,11 +311,11 @@ func (r *caseRun) tick(ctx context.Context, mod api.Module, stack []uint64) {
 	if r.target == nil {
 		r.target = mod // start shapes: the instantiating module is only reachable from here
 	}
-	if r.fired || r.spec.Moment < 0 || int(i) != r.spec.Moment {
+	if r.fired || r.tickAt() < 0 || int(i) != r.tickAt() {
 		return
 	}
 	r.fired = true
-	r.fire(ctx)
+	r.fire(true)
 	lim := time.Now().Add(closeWait)
 	for n := 0; !r.target.IsClosed(); n++ {
 		if time.Now().After(lim) {
@@ -238,26 +389,9 @@ func runCase(idx int, spec caseSpec, sh *shape) string {
 	}
 	entryCfg := wazero.NewModuleConfig().WithName(sh.Mods[last].Name)
 
-	// the context of the call under test
+	// the context of the call under test is built right before the call (timers start then)
 	var ctx context.Context
-	switch spec.Cause {
-	case "cancel":
-		ctx, r.cancel = context.WithCancel(bg)
-	case "deadline":
-		// set just before the call below
-	default:
-		ctx, r.cancel = bg, func() {}
-	}
-	mkDeadline := func() {
-		if spec.Cause == "deadline" {
-			d := time.Now().Add(deadlineAhead)
-			if spec.Moment < 0 {
-				d = time.Now().Add(-time.Second)
-			}
-			ctx, r.cancel = context.WithDeadline(bg, d)
-		}
-	}
-
+	r.cancel = func() {}
 	var err error
 	var mod api.Module
 	if sh.Start != "" {
@@ -265,10 +399,10 @@ func runCase(idx int, spec caseSpec, sh *shape) string {
 			if spec.Cause == "close" || spec.Cause == "close7" {
 				return "harness|not applicable"
 			}
-			mkDeadline()
-			r.fire(ctx)
-		} else {
-			mkDeadline()
+		}
+		ctx = r.mkCtx(spec.Moment < 0)
+		if spec.Moment < 0 {
+			r.fire(false)
 		}
 		r.calling()
 		mod, err = rt.InstantiateModule(ctx, compiled[last], entryCfg)
@@ -286,9 +420,9 @@ func runCase(idx int, spec caseSpec, sh *shape) string {
 			return "harness|no export " + sh.Entry
 		}
 		params := make([]uint64, len(fn.Definition().ParamTypes()))
-		mkDeadline()
+		ctx = r.mkCtx(spec.Moment < 0)
 		if spec.Moment < 0 {
-			r.fire(ctx)
+			r.fire(false)
 			if spec.Cause == "close" || spec.Cause == "close7" {
 				for lim := time.Now().Add(closeWait); !mod.IsClosed(); {
 					if time.Now().After(lim) {
@@ -309,7 +443,7 @@ func runCase(idx int, spec caseSpec, sh *shape) string {
 // calling: printed right before the call under test. For before-call cases the cause is already in
 // place, so the call is expected to return promptly from here on.
 func (r *caseRun) calling() {
-	if r.spec.Moment < 0 {
+	if r.beforeCall() {
 		r.arm("CALLING")
 		r.armed = 0
 		return
@@ -323,11 +457,14 @@ func (r *caseRun) judge(mod api.Module, err error) string {
 	if errors.Is(err, errNeverClosed) {
 		return "bad:cause-did-not-close-module|" + info + " the module was not closed within 20s after the cause was fired"
 	}
-	if spec.Moment >= 0 && !r.fired {
-		// the guest must reach the chosen tick; a "deadline" that passed earlier than planned is the
+	if r.leaked {
+		return "bad:cancellation-propagated-through-WithoutCancel|" + info + " the module closed after only the parent of the WithoutCancel context was cancelled"
+	}
+	if r.tickAt() >= 0 && !r.fired {
+		// the guest must reach the chosen tick; a deadline that passed earlier than planned is the
 		// only legitimate reason not to (the outcome is judged all the same).
-		if spec.Cause != "deadline" {
-			return fmt.Sprintf("harness|tick %d never reached (%s, err=%v)", spec.Moment, info, err)
+		if !isTimerCause(spec.Cause) {
+			return fmt.Sprintf("harness|tick %d never reached (%s, err=%v)", r.tickAt(), info, err)
 		}
 		info += " early-deadline"
 	}
@@ -354,7 +491,7 @@ func (r *caseRun) judge(mod api.Module, err error) string {
 			return "bad:module-not-closed-afterwards|" + info
 		}
 		stop := "ok-exit"
-		if spec.Moment >= 0 && len(r.ticks) <= spec.Moment+2 {
+		if r.tickAt() >= 0 && len(r.ticks) <= r.tickAt()+2 {
 			stop = "ok-exit-within-one-iteration"
 		}
 		return stop + "|" + info
@@ -362,7 +499,7 @@ func (r *caseRun) judge(mod api.Module, err error) string {
 		if !sh.OverflowOK {
 			return "bad:stack-overflow-in-a-loop-only-shape|" + info
 		}
-		if !closed && !(spec.Moment < 0 && (spec.Cause == "cancel" || spec.Cause == "deadline")) {
+		if !closed && !(r.beforeCall() && isCtxCause(spec.Cause)) {
 			return "bad:module-not-closed-afterwards|" + info + " (after stack overflow)"
 		}
 		return "ok-stack-overflow|" + info
